@@ -3,6 +3,7 @@
 import hashlib
 import random
 
+from ..absstate import permanent_kind
 from ..probe import staging_name
 from .. import faultengine as F
 from .. import concprops as P
@@ -120,8 +121,7 @@ def run_free_reader(rounds, sub_seed):
                 counters["scans"] += 1
                 for rel, data in files.items():
                     parts = rel.split("/")
-                    if (len(parts) >= 3 and parts[0] in ("objects", "metadata", "refs") and staging_name(parts[1])) \
-                            or parts[-1].endswith("_delete") or rel == "hashstore.yaml":
+                    if permanent_kind(rel, lay) in (None, "config"):
                         continue
                     counters["files"] += 1
                     if parts[0] == "objects" and lay.cid_of(data) != "".join(parts[1:]):
